@@ -5,7 +5,8 @@ From Coq Require Import ZArith QArith Qcanon List Bool Arith String.
 From PV.Base Require Import Sums.
 From PV.Model Require Import Grid.
 From PV.Gen Require Import GridK.
-From PV.Proofs Require Import Grid GridGen.
+From PV.Base Require Import F32.
+From PV.Proofs Require Import Grid GridGen F32Error CosError.
 Import ListNotations.
 Close Scope Q_scope. Close Scope Qc_scope. Close Scope Z_scope. Close Scope string_scope.
 Open Scope nat_scope.
@@ -92,3 +93,25 @@ Theorem C12_awc_is_nsi_degree n A w i : i < n -> A i i = false -> sumn n w <> 0%
   (outawc n A w i * sumn n w = nsi_degree_w n A w i - w i)%Qc.
 Proof. exact (awc_is_nsi_degree n A w i). Qed.
 Print Assumptions C12_awc_is_nsi_degree.
+
+(* the rounding model: relative error of one binary32 operation at most 2^-24,
+   for every rational (unbounded exponent range) *)
+Theorem C12_rounding_error x : (Qabs.Qabs (round32 x - x) <= Qabs.Qabs x * qpow2 (-24))%Q.
+Proof. exact (round32_error x). Qed.
+Print Assumptions C12_rounding_error.
+
+(* accuracy attainable in single precision, cosine domain: for trigonometric
+   inputs in [-1,1] the cosine handed to arccos is within 16 * 2^-24 of the
+   exact value of the great-circle expression on the same inputs *)
+Theorem C12_cosine_error cl sl cn sn a b :
+  let i := max a b in let j := min a b in
+  unit_inputs cl i j -> unit_inputs sl i j -> unit_inputs cn i j -> unit_inputs sn i j ->
+  (-1 <= exact_cos cl sl cn sn i j)%Q -> (exact_cos cl sl cn sn i j <= 1)%Q ->
+  (Qabs.Qabs (cos_ang 32 cl sl cn sn a b - exact_cos cl sl cn sn i j) <= 16 * CosError.u)%Q.
+Proof. exact (cos_ang_error cl sl cn sn a b). Qed.
+Print Assumptions C12_cosine_error.
+
+Theorem C12_clamp_nonexpansive x e : (-1 <= e -> e <= 1 ->
+  Qabs.Qabs (clamp x - e) <= Qabs.Qabs (x - e))%Q.
+Proof. exact (clamp_nonexpansive x e). Qed.
+Print Assumptions C12_clamp_nonexpansive.
